@@ -206,6 +206,43 @@ def reject_case(rep):
     d['sweeper_params']['quad_type'] = 'GAUSS'
     rep.side('pfasst-without-right-end-point', _raises(lambda: mk(d, 2), (ControllerError,)) is True)
     rep.side('deprecated-predict-flag', _raises(lambda: mk(base(), 1, {'predict': True}), (ControllerError,)) is True)
+    # the same faults placed on SOME levels only (list-valued entries): every non-empty subset of 2 and 3 levels
+    import itertools
+
+    for NL in (2, 3):
+        nn = [3, 3, 2][:NL]  # LOBATTO / RADAU-LEFT need at least two nodes
+        for sub in itertools.product((False, True), repeat=NL):
+            tag = f'NL{NL}/levels{"".join(str(int(b)) for b in sub)}'
+            for bad in ('GAUSS', 'RADAU-LEFT'):
+                for good in ('RADAU-RIGHT', 'LOBATTO'):
+                    d = base(NL)
+                    d['sweeper_params']['num_nodes'] = nn
+                    d['sweeper_params']['quad_type'] = [bad if b else good for b in sub]
+                    if any(sub):
+                        rep.side(f'pfasst-without-right-end-point/{tag}/{bad}/{good}', _raises(lambda: mk(d, 2), (ControllerError,)) is True)
+                    else:
+                        rep.side(f'pfasst-with-right-end-point-accepted/{tag}/{good}', _raises(lambda: mk(d, 2), (Exception,)) is False)
+            if not any(sub):
+                continue
+            for key, val, okval, excs, first_use in (('quad_type', 'NONSENSE', 'RADAU-RIGHT', (CollocationError, ParameterError, ValueError, KeyError), False),
+                                                     ('node_type', 'NONSENSE', 'LEGENDRE', (CollocationError, ParameterError, ValueError, KeyError), False),
+                                                     ('QI', 'NONSENSE', 'LU', (ParameterError, ValueError, KeyError, NotImplementedError), False),
+                                                     ('initial_guess', 'nonsense', 'spread', (ParameterError,), True)):
+                if first_use and not sub[0]:
+                    continue  # the plain run only uses the initial guess of the finest level: a coarse-level name that is never used is not "first used"
+                d = base(NL)
+                d['sweeper_params'][key] = [val if b else okval for b in sub]
+                rep.side(f'unknown-{key}/{tag}', _raises((lambda: run(d)) if first_use else (lambda: mk(d)), excs) is True)
+            d = base(NL)
+            d['level_params']['residual_type'] = ['nonsense' if b else 'full_abs' for b in sub]
+            rep.side(f'unknown-residual-type/{tag}', _raises(lambda: run(d), (ParameterError,)) is True)
+        for ns in itertools.product((1, 2, 3), repeat=NL):
+            d = base(NL)
+            d['level_params']['nsweeps'] = list(ns)
+            if ns[-1] > 1:
+                rep.side(f'several-sweeps-on-coarsest-level/NL{NL}/{ns}', _raises(lambda: mk(d), (ControllerError,)) is True)
+            else:
+                rep.side(f'sweeps-on-finer-levels-accepted/NL{NL}/{ns}', _raises(lambda: mk(d), (Exception,)) is False)
     for key in ('dtype_u', 'dtype_f'):
         d = base()
         d[key] = object
